@@ -44,6 +44,7 @@ type World struct {
 	usedContracts map[string]*Contract
 	topContract   *Contract
 	splits        []Term
+	quantFacts    []quantFact
 	loopTargets   map[string][]loopTarget
 	loopWhole     map[string]bool
 	axioms        []axiomLine
@@ -504,10 +505,21 @@ func (w *World) hset(st *State, key string, v Term) {
 // stays monotone).
 func (w *World) havocAll(st *State) {
 	oldAlloc := w.hget(st, allocKey)
+	keep := map[string]Term{}
+	for name, g := range w.specs.Ghosts {
+		if g.SpecOnly {
+			if key, ok := w.ghostKey(name); ok {
+				keep[key] = w.hget(st, key)
+			}
+		}
+	}
 	w.epochN++
 	st.epoch = w.epochN
 	st.alts = nil
 	st.heap = map[string]Term{}
+	for k, v := range keep {
+		st.heap[k] = v
+	}
 	na := w.hget(st, allocKey)
 	w.sc.assume(le(oldAlloc, na))
 }
@@ -642,6 +654,115 @@ type Obligation struct {
 	Clause       *Clause
 	Relaxed      *SolverResult
 	Pos          string
+}
+
+// quantFact is a universally quantified fact assumed on some path (a
+// requires clause, a loop invariant, a callee postcondition). It is kept in
+// source form so that it can be instantiated at the skolem constants of the
+// goals proved later (manual triggering: the solvers' pattern inference is
+// unreliable on index arithmetic).
+type quantFact struct {
+	guard Term
+	env   *CEnv
+	expr  *CExpr
+}
+
+// noteQuantFacts records the quantified top-level conjuncts of an assumed
+// expression.
+func (w *World) noteQuantFacts(guard Term, env *CEnv, e *CExpr) {
+	switch {
+	case e.Op == "bin" && e.Name == "&&":
+		w.noteQuantFacts(guard, env, e.Args[0])
+		w.noteQuantFacts(guard, env, e.Args[1])
+	case e.Op == "bin" && e.Name == "==>" && e.Args[1].Op == "forall":
+		func() {
+			defer func() {
+				if r := recover(); r != nil {
+					if _, ok := r.(unsupportedErr); !ok {
+						panic(r)
+					}
+				}
+			}()
+			g := w.evalBool(env, e.Args[0])
+			w.noteQuantFacts(and(guard, g), env, e.Args[1])
+		}()
+	case e.Op == "forall" && len(e.Binders) == 1:
+		snap := *env
+		snap.cur = env.cur.clone()
+		if env.old != nil {
+			snap.old = env.old
+		}
+		w.quantFacts = append(w.quantFacts, quantFact{guard, &snap, e})
+	}
+}
+
+// skolemize replaces the universally quantified positive parts of a goal by
+// fresh constants (proving the body for an arbitrary value) and instantiates
+// the recorded quantified facts at those constants.
+func (w *World) skolemGoal(env *CEnv, e *CExpr) Term {
+	var sks []Term
+	var walk func(env *CEnv, e *CExpr) Term
+	walk = func(env *CEnv, e *CExpr) Term {
+		switch {
+		case e.Op == "bin" && e.Name == "&&":
+			return and(walk(env, e.Args[0]), walk(env, e.Args[1]))
+		case e.Op == "bin" && e.Name == "==>":
+			return implies(w.evalBool(env, e.Args[0]), walk(env, e.Args[1]))
+		case e.Op == "forall":
+			inner := env
+			for _, b := range e.Binders {
+				var srt Sort
+				var typ types.Type
+				if b.Type.Raw != "" {
+					srt = Sort(b.Type.Raw)
+				} else if b.Type.Pkg == "" && b.Type.Ptr == 0 && !b.Type.Slice && w.isSortName(b.Type.Name) {
+					srt = Sort(b.Type.Name)
+				} else {
+					typ = w.resolveType(env, b.Type)
+					srt = w.sortOf(typ)
+				}
+				sk := w.sc.fresh("sk."+b.Name, srt)
+				inner = inner.with(b.Name, &Val{T: sk, Typ: typ})
+				if srt == SInt {
+					sks = append(sks, sk)
+				}
+			}
+			return walk(inner, e.Args[0])
+		}
+		return w.evalBool(env, e)
+	}
+	goal := walk(env, e)
+	// instantiate assumed quantified facts at the skolem constants (and at
+	// the images of unary integer specification functions)
+	var terms []Term
+	for _, sk := range sks {
+		terms = append(terms, sk)
+		for name, fn := range w.specs.Fns {
+			if len(fn.Params) == 1 && fn.Params[0] == SInt && fn.Result == SInt && strings.HasPrefix(name, "rootPos") {
+				terms = append(terms, mk(SInt, sym(name), sk))
+			}
+		}
+	}
+	for _, qf := range w.quantFacts {
+		b := qf.expr.Binders[0]
+		if !(b.Type.Name == "int" || b.Type.Name == "Int") || b.Type.Ptr != 0 || b.Type.Pkg != "" {
+			continue
+		}
+		for _, t := range terms {
+			func() {
+				defer func() {
+					if r := recover(); r != nil {
+						if _, ok := r.(unsupportedErr); !ok {
+							panic(r)
+						}
+					}
+				}()
+				inst := w.evalBool(qf.env.with(b.Name, &Val{T: t, Typ: types.Typ[types.Int]}), qf.expr.Args[0])
+				w.sc.assume(implies(qf.guard, inst))
+			}()
+		}
+	}
+	return goal
 }
 
 func (w *World) oblige(kind, label string, cond, goal Term, star bool, props []string) *Obligation {
